@@ -52,6 +52,10 @@ def shift1d(ctx, rng, idx):
             dtc_ = np.asarray(disc.calc_timestep(f, 1.0), float)
         if not (np.all(np.isfinite(dtc_)) and np.max(dtc_) <= 30.0 * np.min(dtc_)):
             dirs = {}
+        # ... and not for Burgers data that change sign: with local steps the sonic faces (uL + uR ~ 0, where the upwind flux switches sides)
+        # turn an ulp of difference between the twins into an O(1) one, which no finite perturbation measures (thorough-tier witness)
+        if spec.mname == "burgers" and np.min(spec.prim[0]) < 0.0 < np.max(spec.prim[0]):
+            dirs = {}
     ctx.describe(n=n, shift=k, integrator=iname, cfl=cfl, nstep=nstep, directives=dirs, **spec.desc())
     r1 = [np.roll(x, k) for x in disc.rhs(f)]; r2 = disc2.rhs(f2)
     if not (_finite(r1) and _finite(r2)):
